@@ -2195,7 +2195,7 @@ func ruleWindowsClear(w *World, r *Report, pfx string) {
 	}
 	bad := ""
 	sawAnsi, sawAPI := false, false
-	_, over := w.enumPaths(fn, pathOpts{}, func(p *Path) {
+	_, over := w.enumPaths(fn, pathOpts{InlineDepth: 2, Inline: w.helperInline(fn)}, func(p *Path) {
 		if p.Exit != "return" || bad != "" {
 			return
 		}
@@ -2210,24 +2210,33 @@ func ruleWindowsClear(w *World, r *Report, pfx string) {
 				if sc := x.Call.StaticCallee(); sc != nil && sc.Name() == "Call" && strings.Contains(sc.String(), "LazyProc") && api < 0 {
 					api = ev.Idx
 				}
+			case *ssa.BinOp:
+				// the new row, as a value: (queried row) - n
+				if x.Op == token.SUB && p.stripR(Val{stripConv(x.Y), ev.F, ev.E}).V == nP {
+					if ld, ok := x.X.(*ssa.UnOp); ok && isRowAddr(ld.X) {
+						moved = true
+					}
+				}
 			case *ssa.Store:
 				if !isRowAddr(x.Addr) {
 					continue
 				}
-				if k, ok := constInt(x.Val); ok && k == 0 {
+				// clamped in place (`Y = 0`) or through a local (`y = 0; ...; Y = y`)
+				if k, ok := constInt(p.stripR(p.val(ev, x.Val)).V); ok && k == 0 {
 					clamped = true
-					continue
-				}
-				if sub, ok := x.Val.(*ssa.BinOp); ok && sub.Op == token.SUB && stripConv(sub.Y) == nP {
-					if ld, ok := sub.X.(*ssa.UnOp); ok && isRowAddr(ld.X) {
-						moved = true
-					}
 				}
 			}
 		}
 		isRow := func(v Val) bool {
-			ld, ok := v.V.(*ssa.UnOp)
-			return ok && ld.Op == token.MUL && isRowAddr(ld.X)
+			if ld, ok := v.V.(*ssa.UnOp); ok && ld.Op == token.MUL && isRowAddr(ld.X) {
+				return true
+			}
+			if sub, ok := v.V.(*ssa.BinOp); ok && sub.Op == token.SUB {
+				if ld, ok := sub.X.(*ssa.UnOp); ok && isRowAddr(ld.X) {
+					return true
+				}
+			}
+			return false
 		}
 		switch {
 		case ansi >= 0 && api >= 0:
